@@ -220,6 +220,10 @@ def build_conn(spec: Spec, rng) -> Conn:
     # ---------------- SSL3 .. TLS1.2
     master = spec.master if spec.master is not None else rb(48)
     keylog.append(f"CLIENT_RANDOM {cr.hex()} {master.hex()}")
+    if spec.keylog_extra and cr[0] % 4 == 0:
+        # a client that offered early data and was answered with TLS <= 1.2: its early traffic secret is in the log under the same client random
+        # (OpenSSL and NSS write it when the ClientHello is sent), before or after the master-secret line
+        keylog.insert(cr[1] % 2, f"CLIENT_EARLY_TRAFFIC_SECRET {cr.hex()} {hashlib.sha256(cr).digest().hex()}")
     if p["aead"]:
         iv_len = 12 if p["mode"] == "CHACHA" else 4
     elif p["mode"] == "CBC" and v <= 0x0301:
